@@ -896,7 +896,7 @@ std::string generateDoubleCode(const std::string &value)
         return value;
     }
 
-    auto ePos = value.find('e');
+    auto ePos = value.find_first_of("eE");
 
     if (ePos == std::string::npos) {
         return value + ".0";
